@@ -198,6 +198,29 @@ class RoleChecker:
                 continue
             if k.arg in params or k.arg in kwonly or kind in ('func', 'ctor'):
                 s.record(mod, call, qual, 'keyword of %s' % disp, ast.unparse(k.value), k.arg, s.role_of(k.value, mod, cls, env), ROLE_OF.get(k.arg))
+        # completeness: a callee that takes rate, width AND channels must be given all three or none --
+        # passing some and leaving another to its default (16000 / 2 / 1) silently changes the format
+        role_params = {ROLE_OF[p_]: p_ for p_ in params + list(kwonly) if p_ in ROLE_OF}
+        if len(role_params) == 3 and kind in ('func', 'ctor') and not any(k.arg is None for k in call.keywords):
+            given = set()
+            npos = 0
+            starred = False
+            for a in call.args:
+                if isinstance(a, ast.Starred):
+                    starred = True
+                    break
+                if npos < len(params) and params[npos] in ROLE_OF:
+                    given.add(ROLE_OF[params[npos]])
+                npos += 1
+            for k in call.keywords:
+                if k.arg in ROLE_OF:
+                    given.add(ROLE_OF[k.arg])
+            if not starred and 0 < len(given) < 3:
+                missing = sorted(set(role_params) - given)
+                s.pairs.append(dict(where='auditok/%s.py:%d' % (mod, call.lineno), func=qual, kind='completeness of %s' % disp, giver='(default)', receiver=', '.join(role_params[m_] for m_ in missing),
+                                    role_g='default value', role_r='/'.join(missing), ok=False))
+            elif not starred and len(given) == 3:
+                s.pairs.append(dict(where='auditok/%s.py:%d' % (mod, call.lineno), func=qual, kind='completeness of %s' % disp, giver='all three', receiver='rate/width/channels', role_g='complete', role_r='complete', ok=True))
 
     def run(s, mods=None):
         for mod, d in s.m.mods.items():
